@@ -251,4 +251,100 @@ theorem reach_follow {fix : Bool} {q : Query} {todo : List Op} :
     obtain ⟨s1, h1, h2⟩ := h
     exact reach_follow rest s1 s' (.step hr (Or.inr h1)) h2
 
+/-! ### one call: it returns within 9 steps -/
+
+theorem program_run {q : Query} {n : Nat} {s s' : Sys} (h : Inv q s) (hr : Run true q n s s') :
+    program s' = program s := by
+  induction hr with
+  | refl => rfl
+  | step hr' hs ih =>
+    rw [← ih h]
+    exact hs.elim (program_cStep (measure_run h hr').1) program_pStep
+
+theorem pPot_idle_le {q : Query} {s : Sys} (h : Inv q s) (hc : s.c = .idle) : pPot s ≤ 2 := by
+  have hsh := h.shape
+  generalize specState q s = it at hsh
+  rcases s with ⟨todo, hist, out, c, env, closed, done, more, moreClosed, nextClosed, p, pos, work, perr⟩
+  simp only at hc
+  subst hc
+  cases p <;> simp [Shape, Quiet] at hsh <;> simp [pPot, hsh]
+  all_goals split <;> omega
+
+/-- a call that has not returned after `n` steps: `n ≤ 9` -/
+theorem call_bound {q : Query} {s s' : Sys} {op : Op} {rest : List Op} {n : Nat} (h : Inv q s)
+    (hc : s.c = .idle) (ht : s.todo = op :: rest) (hr : Run true q n s s')
+    (hh : s'.hist.length = s.hist.length) : n ≤ 9 := by
+  have hm := (measure_run h hr).2
+  have hp := program_run h hr
+  have hpp := pPot_idle_le h hc
+  have hms : measure s = 8 * (rest.length + 1) + pPot s := by simp [measure, cPot, hc, ht]
+  simp only [program, ht] at hp
+  have hin : inflight s = [] := by simp [inflight, hc]
+  rw [hin] at hp
+  simp only [List.append_nil] at hp
+  -- equal-length prefixes of the same list are equal
+  have hhist : s'.hist = s.hist := by
+    have h1 := congrArg (List.take s.hist.length) hp
+    simp only [List.append_assoc] at h1
+    rw [List.take_left' hh, List.take_left' rfl] at h1
+    exact h1
+  rw [hhist, List.append_assoc] at hp
+  have hrest := List.append_cancel_left hp
+  cases hcs : s'.c with
+  | idle =>
+    simp [inflight, hcs] at hrest
+    have : measure s' ≥ 8 * (rest.length + 1) := by simp [measure, hrest]; omega
+    omega
+  | crashed =>
+    have hsh := (measure_run h hr).1.shape
+    generalize specState q s' = it at hsh
+    simp [Shape, hcs] at hsh
+  | nextSend =>
+    simp [inflight, hcs] at hrest
+    have : measure s' ≥ 8 * rest.length + 1 := by simp [measure, cPot, hcs, hrest]; omega
+    omega
+  | nextRecv =>
+    simp [inflight, hcs] at hrest
+    have : measure s' ≥ 8 * rest.length + 1 := by simp [measure, cPot, hcs, hrest]
+    omega
+
+
+/-! ### between two calls the producer does not write `sols.err` -/
+
+/-- runs in which only the producer moves (the consumer goroutine is busy elsewhere, e.g. reading a field) -/
+inductive PRun (q : Query) : Sys → Sys → Prop where
+  | refl (s) : PRun q s s
+  | step {s s' s''} : PRun q s s' → pStep q s' = some s'' → PRun q s s''
+
+/-- the producer is parked or on its way out, and nothing is buffered for it -/
+def Harmless (s : Sys) : Prop :=
+  s.more = 0 ∧ (s.p = .await0 ∨ s.p = .awaitMore ∨ s.p = .exiting ∨ s.p = .exited)
+
+theorem harmless_idle {q : Query} {s : Sys} (h : Inv q s) (hc : s.c = .idle) : Harmless s := by
+  have hsh := h.shape
+  generalize specState q s = it at hsh
+  rcases s with ⟨todo, hist, out, c, env, closed, done, more, moreClosed, nextClosed, p, pos, work, perr⟩
+  simp only at hc
+  subst hc
+  cases p <;> simp [Shape, Quiet] at hsh <;> simp [Harmless, hsh]
+
+theorem harmless_pStep {q : Query} {s s' : Sys} (h : Harmless s) (hs : pStep q s = some s') :
+    Harmless s' ∧ s'.perr = s.perr ∧ s'.env = s.env := by
+  rcases s with ⟨todo, hist, out, c, env, closed, done, more, moreClosed, nextClosed, p, pos, work, perr⟩
+  obtain ⟨hm, hp⟩ := h
+  simp only at hm hp
+  subst hm
+  rcases hp with rfl | rfl | rfl | rfl <;> simp [pStep, recvMore] at hs
+  all_goals (try (obtain ⟨_, rfl⟩ := hs)) <;> (try subst hs) <;> simp [Harmless]
+
+theorem harmless_prun {q : Query} {s s' : Sys} (h : Harmless s) (hr : PRun q s s') :
+    Harmless s' ∧ s'.perr = s.perr ∧ s'.env = s.env := by
+  induction hr with
+  | refl => exact ⟨h, rfl, rfl⟩
+  | step _ hs ih =>
+    obtain ⟨h1, h2, h3⟩ := ih
+    obtain ⟨g1, g2, g3⟩ := harmless_pStep h1 hs
+    exact ⟨g1, g2.trans h2, g3.trans h3⟩
+
+
 end PrologVerif.Solutions
